@@ -117,6 +117,9 @@ class Routes:
             self.cmp("UnitDatabase.Convert(tuple)", db.Convert(qt, u, v, tuple(xs)), ref, case, au, av, xs, tuple)
             self.cmp("UnitDatabase.Convert(ndarray f8)", db.Convert(qt, u, v, np.array(xs, dtype=float)), ref, case, au, av, xs, np.ndarray)
             self.cmp("UnitDatabase.Convert([(u,1)])", db.Convert(qt, [(u, 1)], [(v, 1)], float(x0)), [r0], case, au, av, [x0])
+            self.cmp("UnitDatabase.Convert(u,[(v,1)])", db.Convert(qt, u, [(v, 1)], float(x0)), [r0], case, au, av, [x0])
+            self.cmp("UnitDatabase.Convert([(u,1)],v)", db.Convert(qt, [(u, 1)], v, float(x0)), [r0], case, au, av, [x0])
+            self.cmp("UnitDatabase.Convert(((u,1),),((v,1),))", db.Convert(qt, ((u, 1),), ((v, 1),), float(x0)), [r0], case, au, av, [x0])
             ints = [int(x) for x in xs if abs(x) < 1e15 and float(x).is_integer()]
             if ints:
                 iref = [db.Convert(qt, u, v, float(i)) for i in ints]
